@@ -498,21 +498,20 @@ func TestStatusTables(t *testing.T) {
 				if !ok {
 					t.Fatalf("EncodeError did not return a status error")
 				}
-				allowed := map[codes.Code]bool{}
-				if fault {
-					allowed[codes.Internal] = true
+				// the table of grpc/error.go EncodeError: Temporary, else Timeout, else Fault, else Unknown.
+				// (Callers key retries on Unavailable / DeadlineExceeded, so which flag wins when
+				// several are set is part of the mapping, as it is for the HTTP status.)
+				wantCode := codes.Unknown
+				switch {
+				case tmp:
+					wantCode = codes.Unavailable
+				case to:
+					wantCode = codes.DeadlineExceeded
+				case fault:
+					wantCode = codes.Internal
 				}
-				if to {
-					allowed[codes.DeadlineExceeded] = true
-				}
-				if tmp {
-					allowed[codes.Unavailable] = true
-				}
-				if len(allowed) == 0 {
-					allowed[codes.Unknown] = true
-				}
-				if !allowed[st.Code()] {
-					t.Errorf("gRPC code for timeout=%v temporary=%v fault=%v: got %v, not one of the set flags' codes", to, tmp, fault, st.Code())
+				if st.Code() != wantCode {
+					t.Errorf("gRPC code for timeout=%v temporary=%v fault=%v: want %v got %v", to, tmp, fault, wantCode, st.Code())
 				}
 				if st.Message() != err.Error() {
 					t.Errorf("gRPC status message %q != error text %q", st.Message(), err.Error())
